@@ -649,10 +649,19 @@ sgsisx(superlu_options_t *options, SuperMatrix *A, int *perm_c, int *perm_r,
 	    SUPERLU_FREE(perm); /* MC64 permutation */
 	    SUPERLU_FREE(perm_tmp);
 	}
+
+	if ( *info > A->ncol ) { /* Memory allocation failed in sgsitrf():
+			      L and U were not created. */
+	    Destroy_CompCol_Permuted(&AC);
+	    if ( A->Stype == SLU_NR ) {
+		Destroy_SuperMatrix_Store(AA);
+		SUPERLU_FREE(AA);
+	    }
+	    return;
+	}
     }
 
     if ( options->PivotGrowth ) {
-	if ( *info > 0 ) return;
 
 	/* Compute the reciprocal pivot growth factor *recip_pivot_growth. */
 	*recip_pivot_growth = sPivotGrowth(A->ncol, AA, perm_c, L, U);
